@@ -11,6 +11,11 @@ NOTES = ("Contract-based deductive verification. Each check extracts the real fu
          "otherwise labelled bounded and not counted) discharge every obligation. Exit 2 = undecided (lost anchor / unsupported construct / solver limit), never an alarm.")
 
 CLAIMS = {
+    "C09": dict(
+        technique="Verus contracts on the extracted hand-written speedy decoders (Changeset, SyncNeedV1, SyncStateV1, SqliteValue) with totality stand-ins (panic / reservation / unchecked-UTF-8 obligations); Kani complete proof of the packed-integer width rule; replay of crafted frames on the real crate",
+        text="Unbounded proof (any input length) that the four hand-written decoders cannot reach a panic, only reserve memory bounded by a constant or by the bytes left in the reader, and only build Text from validated UTF-8; full-domain proof that num_bytes_needed_i64 is the extension's minimal big-endian width. The pack/unpack round trip and derived (speedy-derive) codecs are not yet under contract; frame-size limits and peak RSS are runtime quantities, not decided.",
+        note="Assumed: speedy Reader and primitive/derived Readable impls are total and consume their minimum size; generic reader/error types replaced by concrete stand-ins; `bytes` crate as compiled by Kani.",
+    ),
     "C14": dict(
         technique="Verus contracts on anchored fragments of the real update feed (cl-cache filter/buffering of one candidate, cache trim, delete/update parity)",
         text="Proof for all keys/causal lengths/cache contents that a candidate is dropped exactly when a strictly newer causal length of the same key was already let through, that otherwise the pending notification and the cache carry this latest causal length, that trimming keeps the most recent 1000 keys, and that a notification says Delete iff the causal length is even. Monotonicity is conditional on the key not having been evicted from the bounded cache. 'Every changed key is notified' is not decided.",
@@ -80,5 +85,4 @@ NOT_APPLICABLE = {
     "C20": "tokio concurrency (exclusion, priority, deadlock freedom); outside Kani (no threads) and Verus (needs its own sync primitives)",
     # not yet built — removed from this list as each check lands
     "C07": "check not built yet in this round (planned: DESIGN.md §5/C07)",
-    "C09": "check not built yet in this round (planned: DESIGN.md §5/C09)",
 }
